@@ -9,7 +9,15 @@
    const(..)), the item level (struct / enum bodies, field and variant names), the composition with to_rust and
    to_rust_keep_names, the expansion constants; the lexing of the printed text by proc_macro2 is trusted.
    Excluded by hypothesis and refuted below (they are real deviations of the crate, found again by the oracle):
-   half-open integer ranges, OCTET/BIT STRING default literals, complex(Name) without a tag. *)
+   half-open integer ranges (F08-7), OCTET/BIT STRING default literals (F08-1), complex(Name) without a tag (F08-3)
+   -- [Known_C08_attr] --; at item level extensible_after(..) naming an escaped field (F08-2, [Known_C08_ext_escaped]) and
+   the constants into_asn drops ([Known_C08_consts_dropped]: named bits of a BIT STRING, F08-15
+   bitstring_constants_lost_on_reparse, and named numbers of an INTEGER below default(..), F08-21
+   default_integer_constants_lost_on_reparse -- into_asn looks through optional(..) only (Type::no_optional_mut));
+   both witnessed by C08_refuted_consts_dropped.
+   Named numbers of an OPTIONAL component never reach the Rust model at all (to_rust_constants sees Type::Optional): that
+   is outside C08's statement -- the generator's starting model R1 already lacks them, and named numbers are not
+   constraints -- so there is no class for it. *)
 From A1 Require Front.IntTy.
 From A1 Require Import Base.Res Gen.Keywords Front.Codegen Front.Attr Front.AttrItem Front.CodegenProofs Front.AttrItemProofs Front.Descr Front.DescrProofs.
 From Coq Require Import String.
@@ -108,7 +116,7 @@ Theorem C08_refuted_ext_escaped :
 Proof. cbv zeta. split; [|split]; vm_compute; reflexivity. Qed.
 
 (* into_asn: what parse_asn_definition keeps of a field / variant attribute.  Outside [Known_C08_consts_dropped] (F08-15:
-   named bits of a BIT STRING; likewise named numbers of an INTEGER below default(..)) everything is kept *)
+   named bits of a BIT STRING; F08-21: named numbers of an INTEGER below default(..)) everything is kept *)
 Theorem C08_into_asn_keeps : forall t a,
   a_primary a = PType t -> ~ Known_C08_untagged_complex t -> ~ Known_C08_consts_dropped a ->
   (forall n g, t = ARef n g -> a_consts a = []) ->
